@@ -252,7 +252,7 @@ JOBS['C17'] = [
     {'name': 'width_tables', 'harness': 'c17_tab.c', 'units': [], 'defs': {}, 'expect_reach': ['end'], 'timeout': {'quick': 280, 'thorough': 1700}},
 ]
 META['C18'] = {
-    'bounds': {'quick': 'all lines of <=4 characters over {Latin, digit, blank, -, Arabic BEH, Arabic ALEF, ZWNJ} (and, permutation only, with the mark characters $ \\\\ { } [ ] *) x td -2..2: permutation, newline last, runs reversed in place; columns derived from the permutation for lines of <=4 characters in right-to-left context (Latin runs with TAB / wide characters) tile the line; shaping: previous/current/next over the whole joining-letter table or a non-letter or nothing, 0..2 diacritics on either side',
+    'bounds': {'quick': 'all lines of <=4 characters over {Latin, digit, blank, -, Arabic BEH, Arabic ALEF, ZWNJ} (and, permutation only, with the mark characters $ \\\\ { } [ ] *) x td -2..2: permutation, newline last, runs reversed in place; a nested mark \\*[...] inside a right-to-left line and in front of a right-to-left word in a left-to-right line; columns derived from the permutation for lines of <=4 characters in right-to-left context (Latin runs with TAB / wide characters) tile the line; shaping: previous/current/next over the whole joining-letter table or a non-letter or nothing, 0..2 diacritics on either side',
                'thorough': 'lines of <=5 characters'},
     'outside': 'longer lines; the exact effect of the configured mark patterns (only the permutation property is asserted for lines containing mark characters)',
     'assumptions': ['base direction: option td beyond +-1, else the first character, else the sign of td'],
@@ -263,7 +263,7 @@ JOBS['C18'] = [
     {'name': 'reorder_marks', 'harness': 'c18_dir.c', 'units': _ren_units, 'defs': {'quick': {'LL': 4, 'MARKS': 1}, 'thorough': {'LL': 5, 'MARKS': 1}},
      'heavy': True, 'expect_reach': ['end', 'marks'], 'timeout': {'quick': 280, 'thorough': 1700}},
     {'name': 'reorder_nested_mark', 'harness': 'c18_dir.c', 'units': _ren_units, 'defs': {'NESTED': 1},
-     'expect_reach': ['end', 'nested'], 'timeout': {'quick': 280, 'thorough': 1700}},
+     'expect_reach': ['end', 'nested', 'nested-ltr'], 'timeout': {'quick': 280, 'thorough': 1700}},
     # the columns derived from the permutation (ren_position_reorder: inverse permutation, prefix sums of widths) tile the line:
     # Latin runs holding a TAB or a wide character inside a right-to-left line (the harness of C17)
     {'name': 'positions_of_reordered_runs', 'harness': 'c17_ren.c', 'units': _ren_units,
